@@ -556,6 +556,15 @@ func (vc *VC) specCall(x CCall, env *SpecEnv) Term {
 		return out
 	}
 	switch x.Fn {
+	case "entry":
+		// entry(e): e in the state at function entry (inside a loop invariant
+		// old(e) is e at loop entry)
+		if len(x.Args) == 1 {
+			n := env.child()
+			n.inOld = true
+			n.oldSt = nil
+			return vc.spec(x.Args[0], n)
+		}
 	case "len":
 		a := args()
 		return vc.lenOf(a[0], a[0].T, false, token.NoPos)
@@ -833,7 +842,7 @@ func (vc *VC) applySpecArgs(sf *SpecFunc, argEs []CExpr, env *SpecEnv) Term {
 		// a ground map/slice argument is a Go value: its representation facts
 		// (0 <= len, nil implies empty, ...) are needed by guarded axioms and may
 		// lie deeper than the facts assumed for the parameters
-		if si := vc.ss.info[v.Sort]; si != nil && (si.Kind == "map" || si.Kind == "slice") && pt != nil && !strings.Contains(v.S, "?") {
+		if si := vc.ss.info[v.Sort]; si != nil && (si.Kind == "map" || si.Kind == "slice") && pt != nil && !strings.Contains(v.S, "?") && !vc.inValInv {
 			if vc.repFacts == nil {
 				vc.repFacts = map[string]bool{}
 			}
